@@ -1094,7 +1094,7 @@ def model_request(case, r):
     gcols = [f"gamma_{c['col']}{i}" for i, c in enumerate(case["comparisons"])]
     req = {
         "op": "descriptive", "sd": [0 if case.get("preconcat") else x["_t"] for x in recs], "cols": cols, "tfcols": [1, 2, 3],
-        "gammas": [[int(p[g]) for g in gcols] for p in r["predict"]],
+        "gammas": [[int(p[g]) for g in gcols] for p in r["predict"]], "ngam": len(gcols),
         "weights": [core.f2b(p["match_weight"]) for p in r["predict"]], "nbins": case["nbins"],
         "self": [[core.f2b(w), core.f2b(p)] for w, p in r["self"]],
     }
@@ -1575,7 +1575,7 @@ def compare(ctx, cases, drv):
     for (c, r, skip), (req, codes), m in zip(todo, built, mres):
         if "error" in m:
             raise core.HarnessError("model driver error: " + m["error"])
-        bad = compare_model(c, r, m, codes, skip) or c20_sql.differs(ctx, m)
+        bad = compare_model(c, r, m, codes, skip) or c20_sql.differs(ctx, m) or c20_sql.differs_engine(ctx, m, c, r, skip)
         if bad:
             problems.append((c, "descriptive outputs differ from Lean model Descriptive: " + bad, False))
             continue
@@ -1673,7 +1673,7 @@ def run(ctx: core.Ctx):
         "profile_columns has no Lean model: its figures are decided by the recount oracle alone; ties among equally frequent values may be broken either way in the top / bottom lists",
         "a list of plain records carries no column types: that input form is only generated when every column of every table has a non-null value",
     ]
-    sql_errs = c20_sql.prepare()  # Generated/DescSql.lean: the TF-table and completeness statements the code emits now, as Rel terms (T-sql)
+    sql_errs = c20_sql.prepare()  # Generated/DescSql.lean: the TF-table, completeness, comparison-vector distribution, histogram and unlinkables statements the code emits now, as Rel terms (T-sql)
     ctx.lean = core.lean_check(PROP, ctx.thorough)
     if sql_errs:
         ctx.lean.ok = False
